@@ -32,6 +32,7 @@ func init() {
 			need(m, &out, "packets_skipped", 3000)
 			need(m, &out, "adaptation_only_packets_in_streams", 500)
 			need(m, &out, "long_skipped_runs", 8)
+			need(m, &out, "parser_runs_on_damaged_streams", 200)
 			need(m, &out, "parser_groups_observed", 1000)
 			need(m, &out, "parser_replaced_units", 300)
 			need(m, &out, "parser_errors_surfaced", 20)
@@ -123,6 +124,9 @@ func runC19(c *mon.Ctx) {
 			for _, api := range []string{"packet", "data"} {
 				skipperCase(c, i, s, ref, pr, api)
 			}
+		}
+		if !clean {
+			damagedParserCase(c, i, s)
 		}
 		if clean {
 			if orig != nil {
@@ -316,6 +320,57 @@ func withAFOnly(r *rand.Rand, s *gen.Stream) *gen.Stream {
 	ns := &gen.Stream{Packets: out}
 	ns.Encode()
 	return ns
+}
+
+// damagedParserCase: on streams that lost packets the parser still only sees assembled units: a group is never empty, holds one PID,
+// and starts with the packet that starts a unit (what remains of a unit whose beginning was lost is not a unit); with skip=true
+// for every group the output is exactly what the parser supplied.
+func damagedParserCase(c *mon.Ctx, idx int64, s *gen.Stream) {
+	data := map[string]any{"stream": mon.Hex(s.Bytes, 1500)}
+	var problems []string
+	groups := 0
+	var supplied []*astits.DemuxerData
+	cfg := baseCfg("data")
+	cfg.Parser = func(ps []*astits.Packet) ([]*astits.DemuxerData, bool, error) {
+		groups++
+		switch {
+		case len(ps) == 0:
+			problems = append(problems, "empty group")
+			return nil, true, nil
+		case !ps[0].Header.PayloadUnitStartIndicator:
+			problems = append(problems, fmt.Sprintf("group of %d packets on pid %#x does not start with a payload_unit_start packet", len(ps), ps[0].Header.PID))
+		}
+		for _, p := range ps {
+			if p.Header.PID != ps[0].Header.PID {
+				problems = append(problems, "group mixes PIDs")
+			}
+		}
+		d := &astits.DemuxerData{PID: ps[0].Header.PID, PES: &astits.PESData{Data: []byte{byte(groups)}}}
+		supplied = append(supplied, d)
+		return []*astits.DemuxerData{d}, true, nil
+	}
+	run := RunDemux(s.Bytes, cfg)
+	c.Count("parser_runs_on_damaged_streams")
+	c.Add("parser_groups_observed", int64(groups))
+	if run.Panic != "" {
+		c.Violate("C19/parser/panic", "streams", idx, run.Panic, data)
+		return
+	}
+	if len(problems) > 0 {
+		c.Violate("C19/parser/group-malformed:damaged-stream", "streams", idx, problems[0], data)
+		return
+	}
+	got := run.Datas()
+	if len(got) != len(supplied) {
+		c.Violate("C19/parser/replacer-output-count:damaged-stream", "streams", idx, fmt.Sprintf("%d data returned, the parser supplied %d", len(got), len(supplied)), data)
+		return
+	}
+	for k := range got {
+		if got[k] != supplied[k] {
+			c.Violate("C19/parser/replacer-output-differs:damaged-stream", "streams", idx, fmt.Sprintf("result %d is not the %d-th datum the parser returned", k, k), data)
+			return
+		}
+	}
 }
 
 func itemsEqualNoPos(a, b []Item) string { return itemsEqual(a, b) }
